@@ -30,6 +30,18 @@ def run (lines : Array String) : IO Report := do
     | ["crc3", hd, k, h] =>
         let hd := unhex hd; let k := unhex k; let b := unhex h
         check rep ln "getCRC" obs (Gen.getCRC hd k b).toNat (Ref.crc32 (hd.drop 4 ++ k ++ b))
+    | ["rcrc", k, body, _, _, _] =>
+        -- the CRC field a record is stored with = CRC-32 of everything behind it (header tail, key, value): the
+        -- reference over the bytes the writer produced, and the regenerated composition `Gen.getCRC`
+        let enc := unhex obs.trim
+        let key := unhex k; let val := unhex body
+        let stored := Go.getLE 4 enc
+        let refv := Ref.crc32 (enc.drop 4)
+        if enc.length ≠ 24 + key.length + val.length then diff rep ln "oracle" s!"rcrc: encoded record has {enc.length} bytes, expected {24 + key.length + val.length}"
+        if stored ≠ refv then diff rep ln "oracle" s!"record CRC field: stored={stored} reference CRC-32 of the record bytes={refv} (key {key.length} bytes, value {val.length} bytes)"
+        let gen := (Gen.getCRC (enc.take 24) key val).toNat
+        if gen ≠ stored then diff rep ln "model" s!"record CRC field: stored={stored} Gen.getCRC={gen}"
+        ok rep
     | _ => diff rep ln "driver" s!"unparsed line: {l.take 60}"
   rep.get
 
